@@ -14,7 +14,7 @@ from tables.util import llist, lstr
 NAME = "C17"
 
 TRANSCRIBED = ["visit_FunctionDef", "visit_AsyncFunctionDef", "visit_ClassDef", "visit_If", "visit_For", "visit_AsyncFor",
-               "visit_While", "visit_Try", "visit_With", "visit_AsyncWith", "register_stmts"]
+               "visit_While", "visit_Try", "visit_TryStar", "visit_Match", "visit_With", "visit_AsyncWith", "register_stmts"]
 
 
 NAME_SITES = ["get_and_verify_name", "visit_compound_name", "visit_NamedExpr"]
